@@ -4,6 +4,8 @@
 From Coq Require Import Extraction ExtrOcamlBasic.
 From Tx Require Import Common.Base.
 From Tx Require ReplayDetector.Model ReplayDetector.Spec.
+From Tx Require PacketIO.Model PacketIO.Spec.
+From Tx Require Xor.Model.
 
 (* entry points: a request is a list of sections, a section a list of integer lists *)
 Definition req := list (list zs).
@@ -27,6 +29,32 @@ Definition e_rd_oracle (r : req) : list zs :=
   | _ => []
   end.
 
+Definition e_pio_model (r : req) : list zs :=
+  match r with
+  | _ :: ops :: _ => PacketIO.Model.pio_run ops
+  | _ => []
+  end.
+
+Definition e_pio_spec (r : req) : list zs :=
+  match r with
+  | _ :: ops :: _ => PacketIO.Spec.pio_spec_run ops
+  | _ => []
+  end.
+
+Definition e_pio_oracle (r : req) : list zs :=
+  match r with
+  | _ :: ops :: observed :: _ => [PacketIO.Spec.pio_oracle ops observed]
+  | _ => []
+  end.
+
+Definition e_xor_model (r : req) : list zs :=
+  match r with
+  | (conf :: _) :: ops :: _ => Xor.Model.xor_run conf ops
+  | _ => []
+  end.
+
 Extraction Language OCaml.
 Extraction "extracted.ml" Z.add Z.mul Z.div_eucl Z.of_nat Z.to_nat
-  e_rd_model e_rd_spec e_rd_oracle.
+  e_rd_model e_rd_spec e_rd_oracle
+  e_pio_model e_pio_spec e_pio_oracle
+  e_xor_model.
